@@ -10,6 +10,9 @@ def gen_case(rng, i, tier):
     total = sum(int(l.split(" ")[4]) for l in links)
     ops = ["case %d" % i] + V.with_mux(rng, links) + V.gen_splits(rng, links) + ["table", "ref 0", "refpk 0"]
     chunks = [rng.choice([1, 2, 3, 7, 64, 255, 513, 2048, 4096, 100000]) for _ in range(3)]
+    if rng.random() < 0.5:
+        # a read callback built on fread/read may leave errno set after a SUCCESSFUL (short) read — EINTR, EAGAIN: "how the bytes are delivered"
+        ops.append("errnoise %d" % rng.choice([4, 11, 5]))
     ops += ["open 0 1 %d" % chunks[0], "open 1 0 %d" % chunks[1], "open 2 0 %d" % rng.choice([1, 1, 2, chunks[2]])]
     for slot in (0, 1, 2):
         got = 0
@@ -96,7 +99,7 @@ def run(chk):
                       {"ops": d["ops"][1:10], "answers": [a for _, a in d["ans"] if isinstance(a, str)][:10]})
     chk.coverage["rule"] = ("every chain is decoded four ways: vorbisfile seekable, vorbisfile streaming (two handles), packet-level API per link; read callbacks return at most "
                             "1,2,3,7,...,100000 bytes per call; request lengths 1..2^20 samples and ov_read byte buffers 1..16384 in 8/16 bit either endianness; "
-                            "bit-exact data oracle on every ov_read_float, position/byte arithmetic on every ov_read; counts and positions also compared with the Lean model "
+                            "in half of the cases every successful read leaves errno at EINTR/EAGAIN/EIO as a retrying fread-style callback may; bit-exact data oracle on every ov_read_float, position/byte arithmetic on every ov_read; counts and positions also compared with the Lean model "
                             "(which has no chunk parameter at all)")
     V.settle_vf(chk, res, broken, ofail)
 
